@@ -40,7 +40,7 @@ def share_equal_indices(inputs, output, size_dict):
 
 
 def hash_contraction_a(inputs, output, size_dict):
-    if not isinstance(next(iter(size_dict.values()), 1), int):
+    if any(not isinstance(d, int) for d in size_dict.values()):
         # hashing e.g. numpy int won't match!
         size_dict = {k: int(v) for k, v in size_dict.items()}
 
@@ -58,6 +58,10 @@ def hash_contraction_a(inputs, output, size_dict):
 
 
 def hash_contraction_b(inputs, output, size_dict):
+    if any(not isinstance(d, int) for d in size_dict.values()):
+        # hashing e.g. numpy int won't match!
+        size_dict = {k: int(v) for k, v in size_dict.items()}
+
     inputs, output, size_dict = share_equal_indices(inputs, output, size_dict)
 
     # label each index as the sorted tuple of nodes it is incident to
